@@ -354,6 +354,23 @@ fn run_gm<B: BmCtl>() -> RunInfo {
             });
             log.push(format!("bitmap of region {}: {}", i, ["reset()", "reset_addr_range", "get_and_reset()"][what as usize]));
         }
+        // now and then the map is replaced by one derived with remove_region / insert_region
+        if !tracked && cx().a(6) == 0 {
+            let r = if !w.unplugged.is_empty() && cx().a(2) == 0 {
+                log.push("insert_region(previously removed region)".into());
+                w.replug()
+            } else if w.regs.len() > 1 {
+                let i = cx().a(w.regs.len() as u32) as usize;
+                log.push(format!("remove_region(region {} at {:#x})", i, w.regs[i].base));
+                w.unplug(i)
+            } else {
+                Ok(())
+            };
+            if let Err(e) = r {
+                cx().violate("C03", "C03/derive", "deriving a map of the same regions failed".into(), format!("step {} {}: {}", step, log.last().unwrap(), e));
+                break;
+            }
+        }
         let before_pages = if tracked { snapshot_pages(&w, &page_sizes) } else { Vec::new() };
         let before_bytes: Vec<Vec<u8>> = w.regs.iter().enumerate().map(|(i, r)| raw_read(w.ptrs[i], r.size)).collect();
         cx().mode = Mode::Actor;
